@@ -195,6 +195,11 @@ func (p *srcPlugin) Run(ctx context.Context, stream pconnector.SourceRunStream) 
 			if err != nil {
 				return
 			}
+			if w.Case.GateSrcAcks {
+				// a plugin that is slow to take its acks: it holds this message (and does not
+				// receive the next one) until the scheduler lets it go on
+				_ = w.Sched.Gate(ctx, "ack-taken "+p.spec.ID)
+			}
 			for _, pos := range req.AckPositions {
 				s, q, ok := ParsePos(string(pos))
 				e := Event{Kind: EvSrcAck, Comp: p.spec.ID, Inst: p.inst, Src: -1, Seq: -1, Pos: string(pos)}
@@ -579,6 +584,10 @@ func (p *dstPlugin) Run(ctx context.Context, stream pconnector.DestinationRunStr
 		}
 		switch last.outcome {
 		case OutErr:
+			if (p.isDLQ && w.Case.DLQ.ErrEOF) || (!p.isDLQ && p.spec != nil && p.spec.ErrEOF) {
+				w.Log.Add(Event{Kind: EvDstErr, Comp: p.id, Inst: p.inst, Src: last.src, Seq: last.seq, Piece: last.piece, Info: "eof"})
+				return nil
+			}
 			w.Log.Add(Event{Kind: EvDstErr, Comp: p.id, Inst: p.inst, Src: last.src, Seq: last.seq, Piece: last.piece})
 			return fmt.Errorf("%s: destination %s stream failure at %d:%d.%d", Marker, p.id, last.src, last.seq, last.piece)
 		case OutHold:
